@@ -39,6 +39,9 @@ type SessionSpec struct {
 	// PausesFirst: at a quiescent point a goroutine parked at a yield point is released before a
 	// gated (slow) step is let go; otherwise slow steps are released first.
 	PausesFirst bool
+	// LateClientWrites: every Write of the client returns only at the next quiescent point (after its bytes were
+	// delivered): the plugin may have answered a message before the client knows it is out.
+	LateClientWrites bool
 	// CloseAfterItems: with CloseOverlap, Close is additionally held back until the client has written that many
 	// messages in all (so that it lands in the middle of the signal traffic).
 	CloseAfterItems int
@@ -104,6 +107,7 @@ func RunSession(spec SessionSpec) *SessionResult {
 	res.C2S = NewPipe("c2s", spec.C2S, chunker(spec.ChunkSeed))
 	res.S2C = NewPipe("s2c", spec.S2C, chunker(spec.ChunkSeed*31+7))
 	res.S2C.SlowRead = spec.SlowClientReads
+	res.C2S.LateWrite = spec.LateClientWrites
 	var doneCount atomic.Int32
 	var panicMu sync.Mutex
 	guard := func(name string, f func()) {
